@@ -472,6 +472,49 @@ def _enclosing_block_end(b, pos):
     raise ExtractionError('lock declaration outside any block')
 
 
+def _wrap_scope_exit(blk, exit_stmt):
+    """insert exit_stmt before every return of blk (value computed first) -- blk is the text from the
+    declaration to the end of its enclosing block"""
+    out = []
+    i = 0
+    for r in re.finditer(r'\breturn\b([^;]*);', blk):
+        out.append(blk[i:r.start()])
+        val = r.group(1).strip()
+        if val:
+            out.append('{ __typeof__(%s) vf_rv = (%s); %s return vf_rv; }' % (val, val, exit_stmt))
+        else:
+            out.append('{ %s return; }' % exit_stmt)
+        i = r.end()
+    out.append(blk[i:])
+    return ''.join(out)
+
+
+def rewrite_raii(b, raii):
+    """raii: {TypeName: (ctor_macro, dtor_macro)}.  `TypeName x;` -> `struct TypeName x; CTOR(&x);` and DTOR(&x) at every
+    exit of the declaring block (destructor placement made explicit)."""
+    for ty, (ctor, dtor) in (raii or {}).items():
+        pat = re.compile(r'(?<![\w:.>])' + ty + r'\s+(\w+)\s*;')
+        pos = 0
+        while True:
+            m = pat.search(b, pos)
+            if not m:
+                break
+            j = m.start() - 1
+            while j >= 0 and b[j].isspace():
+                j -= 1
+            if j >= 0 and b[j] not in ';{}':
+                pos = m.end()
+                continue
+            name = m.group(1)
+            end = _enclosing_block_end(b, m.end())
+            exit_stmt = '%s(&%s);' % (dtor, name)
+            decl = 'struct %s %s; %s(&%s);' % (ty, name, ctor, name)
+            blk = _wrap_scope_exit(b[m.end():end], exit_stmt)
+            b = b[:m.start()] + decl + blk + ' ' + exit_stmt + ' ' + b[end:]
+            pos = m.start() + len(decl)
+    return b
+
+
 def rewrite_locks(b):
     """std::unique_lock l{m}; / std::lock_guard l{m}; [, std::try_to_lock]  ->  VF_ACQUIRE(&(m)); / VF_TRY_ACQUIRE(&(m));
     l.unlock() / l.lock() / cv.wait(l) / !l  ->  VF_RELEASE / VF_ACQUIRE / VF_CV_WAIT / !VF_HELD ;
@@ -558,6 +601,7 @@ def rewrite(body, ctx):
        ptrmem       {Next: field}        p->*Next -> p->field
        scalars      [type names]  T x{e}; / T(e) functional casts
        obj_methods  {method: Cname}  obj->method(a) / obj.method(a) -> Cname(obj|&obj, a)
+       raii         {Type: (CTOR, DTOR)}  local `Type x;` -> `struct Type x; CTOR(&x);` + DTOR(&x) at every exit of its block
     """
     b = body
     self_ = ctx.get('self', 'self')
@@ -570,6 +614,7 @@ def rewrite(body, ctx):
     # preprocessor conditionals that (after dropping pragmas/comments) guard nothing
     b = re.sub(r'^[ \t]*#\s*if[^\n]*\n(?:\s*#\s*el(?:if|se)[^\n]*\n|\s*\n)*\s*#\s*endif[^\n]*$', '', b, flags=re.M)
     b = rewrite_locks(b)
+    b = rewrite_raii(b, ctx.get('raii'))
     for name, field in ctx.get('ptrmem', {}).items():
         b = re.sub(r'->\*\s*' + name + r'\b', '->' + field, b)
         b = re.sub(r'\.\*\s*' + name + r'\b', '.' + field, b)
